@@ -24,6 +24,9 @@ import os
 
 import common
 import lifteng
+import sys
+sys.path.insert(0, os.path.dirname(os.path.abspath(__file__)))
+import liftfull_engine  # noqa: E402
 
 
 def corpus_cases():
@@ -41,6 +44,17 @@ def corpus_cases():
                     c = lifteng.make_case(body, rich=salt)
                     c["corpus"] = f
                     out.append(c)
+    return out
+
+
+def liftfull_corpus():
+    """corpus/C13/liftfull-*.circom: past disagreements / witnesses of the liftfull stage."""
+    d = os.path.join(common.VERIF, "corpus", "C13")
+    out = []
+    if os.path.isdir(d):
+        for f in sorted(os.listdir(d)):
+            if f.startswith("liftfull-") and f.endswith(".circom"):
+                out.append(("corpus/" + f, open(os.path.join(d, f)).read()))
     return out
 
 
@@ -131,6 +145,25 @@ def run(ctx, proofs):
             k = form_kind(sx, where)
             form_kinds[k] = form_kinds.get(k, 0) + 1
             n_compound += 1
+    # stage: content-carrying lifting mirror (Model.LiftFull) vs the real into_cfg
+    lf = liftfull_engine.run(common, ctx.rng, quick, extra_programs=liftfull_corpus())
+    lf_dis, lf_wf, lf_thm = lf["disagreements"], lf["wf_failures"], lf["thm_failures"]
+    for d in lf_dis[:3]:
+        ctx.violation("content-carrying lifting mirror Model.LiftFull and the real into_cfg disagree (%d definitions; %s mode, "
+                      "label %s): the theorems C13_liftfull_*, C04_liftfull_*, C08_liftfull_* speak about a model that is not "
+                      "the code" % (len(lf_dis), d["mode"], d["label"]),
+                      {"broken": "correspondence liftfull (Model.LiftFull vs control_flow_graph/lifting.rs + "
+                                 "intermediate_representation/lifting.rs + unique_vars.rs)",
+                       "liftfull_src": d["src"], "first": d, "count": len(lf_dis)}, no_input=True)
+    for d in lf_wf[:2]:
+        ctx.violation("a parsed and desugared definition does not satisfy LiftFull.definition_wf, the hypothesis of the "
+                      "totality theorem of the lifting mirror (%d definitions)" % len(lf_wf),
+                      {"broken": "hypothesis definition_wf", "liftfull_src": d["src"], "first": d}, no_input=True)
+    for d in lf_thm[:2]:
+        ctx.violation("an equation proved about Model.LiftFull evaluates to false on the extracted model (%d definitions): %s"
+                      % (len(lf_thm), d["flags"]),
+                      {"broken": "C13_liftfull_skeleton / C04_liftfull_stmt_metas_from_ast evaluated", "liftfull_src": d["src"],
+                       "first": d}, no_input=True)
     for f in failing[:5]:
         ctx.violation("the walk of the control-flow graph does not contain the source execution: %s" % (f["spec"],), f)
     for f in form_failing[:5]:
@@ -169,6 +202,38 @@ def run(ctx, proofs):
         "samples": [disagreements[0]] if disagreements else samples,
         "disagreements_model_vs_impl": len(disagreements),
         "spec_failures": len(failing),
+        "liftfull": {
+            "stage": "content-carrying lifting mirror vs implementation",
+            "what": "Model.LiftFull.try_lift_impl (extracted) on the desugared syntax tree of every definition of every generated "
+                    "program, compared as text with the real into_cfg: rich dump (meta of every statement AND expression node, log "
+                    "strings, tags, block metas, declaration records, parameter location), the standard irdump::cfg of the erased "
+                    "graph, the shadowing reports, and the ok / error kind / panic decision; mode `raw` (no desugaring) compares "
+                    "the panic decision on tuples, anonymous components and multi-substitutions",
+            "generators": "proggen.Gen / proggen.targeted (IR-level programs), c18rand (grammar-based, valid and wild sugar), "
+                          "c18gen.matrix sample, c18rand.deep, lifteng bodies (every skeleton <= 5 nodes, random ones up to 60 "
+                          "nodes, compound assignments), %d fixed shapes (tags, custom / parallel templates, component arrays, "
+                          "both arrows, accesses, shadowing cases 1-3, parameter collisions, empty bodies), corpus/C13/liftfull-*.circom"
+                          % len(liftfull_engine.FIXED),
+            "programs": lf["stats"]["programs"],
+            "definitions_compared": lf["stats"]["definitions"] + lf["stats"]["raw_definitions"],
+            "distinct_definitions_desugared": lf["stats"].get("distinct_desugared", 0),
+            "distinct_definitions_raw": lf["stats"].get("distinct_raw", 0),
+            "distinct_rule": "distinct DEF texts (kind, name, parameters, parameter location, body with all metas); the helper "
+                             "templates that every c18 program starts with are counted once",
+            "ir_statements_compared": lf["stats"]["ir_statements"],
+            "results": {"ok": lf["stats"]["ok"], "error": lf["stats"]["err"], "panic": lf["stats"]["panic"]},
+            "raw_results": {"ok": lf["stats"]["raw_ok"], "error": lf["stats"]["raw_err"], "panic": lf["stats"]["raw_panics"],
+                            "mirror_panic_sites": lf["stats"].get("panic_sites", {})},
+            "definitions_with_renamed_variables": lf["stats"]["renamed_definitions"],
+            "shadowing_reports_compared": lf["stats"]["shadow_reports"],
+            "by_generator": lf["stats"]["by_source"],
+            "not_lifted": lf["stats"]["statuses"],
+            "disagreements": len(lf_dis),
+            "definition_wf_evaluations": lf["stats"].get("distinct_desugared", 0),
+            "definition_wf_failures": len(lf_wf),
+            "theorem_equations_evaluated_false": len(lf_thm),
+            "samples": lf["samples"][:1] if not lf_dis else lf_dis[:1],
+        },
         "open_statements": [],   # C13_exhausted_equality is proved (coq/proofs/LiftExhausted.v)
     })
     ctx.assumptions += [
@@ -183,10 +248,20 @@ def run(ctx, proofs):
         "compound one is proved (C13_compound_expansion_sem); the token -> opcode table used to render the operators "
         "is lifteng.COMPOUND_OPS (trusted, 12 lines)",
         "the bounded enumeration of decision lists is only the violation search; the claim for all decision lists is the theorem",
+        "Model.LiftFull (content-carrying lifting mirror: renaming, AST -> IR with metas, blocks, declarations) is tied to "
+        "lifting.rs / intermediate_representation/lifting.rs / unique_vars.rs by the text comparison of stage `liftfull` on "
+        "generated definitions only; the parser and the desugarer in front of it are the real ones (their mirrors are C18's); "
+        "DominatorTree::new, cache_variable_use and the expression-level part of propagate_types are not mirrored",
+        "C13_liftfull_skeleton identifies a statement / condition by an arbitrary function of its META: two statements with "
+        "equal metas (the initialisers of one declaration list) get the same skeleton id, which the theorems of Model.Lift "
+        "allow (they never need distinct ids)",
     ]
 
 
 def replay(ctx, rep):
+    if rep.get("liftfull_src"):
+        print("source:", rep["liftfull_src"])
+        return 1 if liftfull_engine.replay_source(common, rep["liftfull_src"]) else 0
     body = rep.get("body")
     if not body:
         print("replay names a broken obligation, not an input:", rep.get("broken"))
